@@ -545,7 +545,8 @@ def corr_bosonic(ctx, sf, n_cases):
     rng, nprng = ctx.rng, ctx.nprng(18)
     sf.hbar = 2
     cases = []
-    kinds = ["reducedBosonic", "backendState", "parity", "displacement", "walrus", "meanPhoton", "quad", "marginal"]
+    kinds = ["reducedBosonic", "backendState", "parity", "displacement", "walrus", "meanPhoton", "quad", "marginal",
+             "fidelityArgs", "purityArgs", "wignerArgs"]
     for it in range(n_cases):
         kind = kinds[it % len(kinds)]
         n = rng.randint(1, 4)
@@ -596,6 +597,27 @@ def corr_bosonic(ctx, sf, n_cases):
                 if kind == "quad":
                     return np.array(st.quad_expectation(m, phi), dtype=float)
                 return np.array(st.marginal(m, xv, phi), dtype=float)
+        elif kind in ("fidelityArgs", "purityArgs"):
+            modes = list(range(n))
+            comps = [dict(w=fr(w[i]), mu=[fr(x) for x in mus[i]], cov=[[fr(x) for x in row] for row in covs[i]]) for i in range(nw)]
+            al = [complex(rng.randint(-3, 3) / 4, rng.randint(-3, 3) / 4) for _ in range(n)]
+            # hbar = 2: sqrt(2 hbar) = 2 and hbar / 2 = 1 are rational
+            req = dict(op="st.bosonic", kind=kind, n=n, modes=modes, comps=comps, are=[fr(a.real) for a in al],
+                       aim=[fr(a.imag) for a in al], sq=fr(2), h2=fr(1))
+
+            def real(st=st, kind=kind, al=al):
+                return complex(st.fidelity_coherent(al)) if kind == "fidelityArgs" else complex(st.purity())
+        elif kind == "wignerArgs":
+            m = rng.randrange(n)
+            modes = [m]
+            comps = [dict(w=fr(w[i]), mu=[fr(x) for x in mus[i][2 * m: 2 * m + 2]],
+                          cov=[[fr(x) for x in row[2 * m: 2 * m + 2]] for row in covs[i][2 * m: 2 * m + 2]]) for i in range(nw)]
+            x0, p0 = rng.randint(-6, 6) / 4, rng.randint(-6, 6) / 4
+            req = dict(op="st.bosonic", kind=kind, n=1, modes=modes, comps=comps, x=fr(x0), p=fr(p0))
+
+            def real(st=st, m=m, x0=x0, p0=p0):
+                # two different grid lengths: the value sits at [ip, ix]
+                return complex(np.asarray(st.wigner(m, np.array([x0 - 1, x0]), np.array([p0 - 0.5, p0 + 2, p0])))[2, 1])
         else:  # the ordering handed to thewalrus by reduced_dm / fock_prob
             modes = sorted(rng.sample(range(n), rng.randint(1, min(n, 3))))       # the conversion is self-inverse up to two modes
             req = dict(op="st.bosonic", kind="walrus", n=n, modes=modes)
@@ -634,6 +656,19 @@ def corr_bosonic(ctx, sf, n_cases):
             m_ = np.array([rat(model[0]), rat(model[1])])
             if np.max(np.abs(m_ - impl)) > 1e-9 * max(1.0, np.max(np.abs(m_))):
                 ctx.disagree(name, case, str(m_), str(impl))
+        elif case["kind"] in ("fidelityArgs", "purityArgs"):
+            n_ = case["n"]
+            val = 0.0
+            for comp in model:
+                d_, S_ = model_gdata(comp)
+                val += rat(comp["w"]) * math.exp(-0.5 * d_ @ np.linalg.solve(S_, d_)) / math.sqrt(np.linalg.det(S_))
+            val *= sf.hbar ** n_
+            if abs(val - impl) > 1e-9 * max(1.0, abs(val)):
+                ctx.disagree(name, case, val, impl)
+        elif case["kind"] == "wignerArgs":
+            val = sum(rat(t[0]) * math.exp(-0.5 * rat(t[1]) / rat(t[2])) / (2 * math.pi * math.sqrt(rat(t[2]))) for t in model)
+            if abs(val - impl) > 1e-9 * max(1.0, abs(val)):
+                ctx.disagree(name, case, val, impl)
         elif case["kind"] == "marginal":
             xv = np.array([-1.5, -0.25, 0.0, 0.5, 2.0])
             want = sum(rat(t[0]) * np.exp(-0.5 * (xv - rat(t[1])) ** 2 / rat(t[2])) / math.sqrt(2 * math.pi * rat(t[2]))
@@ -824,6 +859,7 @@ def thunks(sf, st, rep, n, D, args):
         for phi in args["phis"]:
             add(f"quad:{m}:{phi}", lambda m=m, phi=phi: np.array(st.quad_expectation(m, phi), dtype=float))
         add(f"wigner:{m}", lambda m=m: np.array(st.wigner(m, xvec, pvec)))
+        add(f"wigner0:{m}", lambda m=m: complex(np.asarray(st.wigner(m, np.array([0.0]), np.array([0.0]))).reshape(-1)[0]))
         if rep == "gaussian":
             add(f"fidelity:{m}", lambda m=m: st.fidelity((np.array(args["other_mu"]), np.array(args["other_cov"])), m))
         elif fock:
@@ -879,7 +915,9 @@ def observe(sf, st, rep, n, D, args, only_cheap=False, order=None):
         t = [x for x in t if x[2]]
     if order is not None:
         order.shuffle(t)
-    return {key: call(f) for key, f, _ in t}
+    out = {key: call(f) for key, f, _ in t}
+    out["hbar"] = float(st.hbar)
+    return out
 
 
 def snapshot(st, rep):
@@ -1095,6 +1133,10 @@ def compare(ctx, rep, obs, exp, tol, against, rp, skip=()):
             ctx.failures[-1]["diff"] = d
 
 
+def hbar_of(obs):
+    return obs.get("hbar", 2.0)
+
+
 def internal_identities(ctx, rep, obs, n, D, rp, tol):
     """identities between methods of ONE state object"""
     def val(k):
@@ -1204,6 +1246,13 @@ def internal_identities(ctx, rep, obs, n, D, rp, tol):
             ctx.oracle_cases += 1
             if not close(a, b, tol):
                 ctx.fail(f"number_expectation:{rep}:vs-mean_photon", f"{rep} number_expectation([{m}]) = {b} but mean_photon({m}) = {a}", rp)
+    for m in range(n):
+        par, w0 = val(f"parity:{m}"), val(f"wigner0:{m}")
+        if par is not None and w0 is not None:
+            ctx.oracle_cases += 1
+            if abs(np.real(par) - math.pi * hbar_of(obs) * float(np.real(w0))) > max(tol0, 1e-8):
+                ctx.fail(f"parity:{rep}:vs-wigner-at-origin", f"{rep} parity_expectation([{m}]) = {par} but pi hbar W(0,0) = "
+                         f"{math.pi * hbar_of(obs) * float(np.real(w0))}", rp)
     a, b = val("fidelity_vacuum"), val("fidelity_coherent0")
     if a is not None and b is not None and abs(a - b) > 1e-12:
         ctx.fail(f"fidelity_vacuum:{rep}:vs-fidelity_coherent", f"{rep} fidelity_vacuum() = {a}, fidelity_coherent(0) = {b}", rp)
@@ -1655,7 +1704,7 @@ def run(ctx, sf):
     if ctx.proof_ok:
         corr_fock(ctx, sf, ctx.n(560, 6000))
         corr_gauss(ctx, sf, ctx.n(330, 3300))
-        corr_bosonic(ctx, sf, ctx.n(250, 2500))
+        corr_bosonic(ctx, sf, ctx.n(330, 3300))
         corr_gauss_dm(ctx, sf, ctx.n(160, 1600))
     check_post(ctx, sf, ctx.n(150, 1500))
     kinds = ["product", "product+bs", "mixed", "pure"]
